@@ -854,16 +854,26 @@ def gen_c10(rng, tier):
         fam = rng.choice(["q", "hq", "w", "hw"])
         elem = rng.choice(ELEMS)
         if fam == "q":
-            c = tree_case(rng, "c10-%d" % k, rng.choice(QWT_KINDS), elem, tier, "q", sweep=False, n=rng.choice([1, 5, 300, 2049, 4097]))
+            c = tree_case(rng, "c10-%d" % k, rng.choice(QWT_KINDS), elem, tier, "q", sweep=False, n=rng.choice([1, 5, 300, 512, 1024, 2048, 2049, 4096, 4097]))
         elif fam == "w":
-            c = tree_case(rng, "c10-%d" % k, "wt", elem, tier, "w", sweep=False, n=rng.choice([1, 5, 300, 2049, 4097]))
+            c = tree_case(rng, "c10-%d" % k, "wt", elem, tier, "w", sweep=False, n=rng.choice([1, 5, 300, 512, 1024, 2048, 2049, 4096, 4097]))
         else:
-            c = huff_case(rng, "c10-%d" % k, rng.choice(HQ_KINDS) if fam == "hq" else "hwt", elem, tier, fam, sweep=False, n=rng.choice([1, 5, 300, 2049, 4097]))
+            c = huff_case(rng, "c10-%d" % k, rng.choice(HQ_KINDS) if fam == "hq" else "hwt", elem, tier, fam, sweep=False, n=rng.choice([1, 5, 300, 512, 1024, 2048, 2049, 4096, 4097]))
         seq = c.seq
         n = len(seq)
         keep = [c.lines[0]] + ([c.lines[1]] if c.lines[1] == "Q codes" else [])
         c.lines = keep
         present = sorted(set(seq))
+        # extreme positions: rank at 0 and at len (level lengths that are multiples of the block sizes), the first and the
+        # last symbol, the first and the last occurrence
+        for s in sorted(set([present[0], present[-1], seq[0], seq[-1]])):
+            for i in (0, n, n - 1):
+                c.add("Q urank %d %d" % (s, i))
+                c.add("Q rank %d %d" % (s, i))
+            for kq in sorted(set([0, seq.count(s) - 1])):
+                c.add("Q uselect %d %d" % (s, kq))
+                c.add("Q select %d %d" % (s, kq))
+        c.add("Q uget 0"); c.add("Q uget %d" % (n - 1))
         for _ in range(40):
             i = rng.randrange(n)
             c.add("Q uget %d" % i)
@@ -933,6 +943,20 @@ def gen_c10(rng, tier):
         c = Case("c10-b%d" % k, tags=dict(kind=kind, n=n, mix=mix, cost=n * 4))
         c.add(C.bits_line(kind, "bits" if kind in ("bv", "bvm", "darray1") else "new", bits))
         ones = sum(bits)
+        # the extreme arguments the checked methods accept: rank at 0, at len (also when len is a multiple of the word /
+        # line / block sizes), at the block boundaries; the first and the last occurrence
+        if kind in ("rsn", "rsw"):
+            for i in sorted(set([0, n, n - 1, (n // 512) * 512, max((n // 512) * 512 - 1, 0), (n // 64) * 64, min(512, n), min(4096, n)])):
+                c.add("Q urank1 %d" % i)
+                c.add("Q rank1 %d" % i)
+                if kind == "rsw":
+                    c.add("Q urank0 %d" % i)
+                    c.add("Q rank0 %d" % i)
+        if kind in ("rsn", "rsw", "darray1"):
+            for kq in sorted(set([0, ones - 1])) if ones else []:
+                c.add("Q uselect1 %d" % kq)
+            for kq in sorted(set([0, n - ones - 1])) if n - ones else []:
+                c.add("Q uselect0 %d" % kq)
         for _ in range(40):
             c.add("Q uget %d" % rng.randrange(n))
             if kind in ("rsn", "rsw"):
@@ -1051,6 +1075,28 @@ def gen_c11(rng, tier):
         c.add("SER")
         c.model = c.tags.get("n", 0) <= 1100
         out.append(c)
+    # DArray with sparse groups (1024 ones, or zeros, over 65536 positions or more): full ones, a partial sparse last
+    # group, fewer than 1024 ones far apart, a dense group after a sparse one
+    kk = 0
+    for kind in ["darray0", "darray1"]:
+        for shape in sizes(tier, [[(1024, 130), (700, 200)], [(300, 500)], [(1024, 2), (1024, 140), (50, 3)]],
+                           [[(1024, 130), (700, 200)], [(300, 500)], [(1024, 2), (1024, 140), (50, 3)], [(2048, 130)], [(5, 30000)], [(1024, 130), (1, 1)]]):
+            for invert in ([False, True] if kind == "darray1" else [False]):
+                bits = da_bits(rng, shape)
+                if invert:
+                    bits = [1 - b for b in bits]
+                ones = sum(bits)
+                c = Case("c11-da%d" % kk, model=False, tags=dict(kind=kind, n=len(bits), mix="sparse groups%s" % (" (zeros)" if invert else ""), cost=len(bits) // 4))
+                kk += 1
+                c.add(C.bits_line(kind, rng.choice(["bits", "new"]), bits))
+                qs = ["Q len", "Q countones", "Q select1all %d" % (ones + 1)] + (["Q select0all %d" % (len(bits) - ones + 1)] if kind == "darray1" else [])
+                for q in qs:
+                    c.add(q)
+                c.add("SER"); c.add("RT")
+                for q in qs:
+                    c.add(q)
+                c.add("SER")
+                out.append(c)
     return out + gen_c11_empties(rng) + gen_c11_deep(rng, tier)
 
 
@@ -1830,8 +1876,13 @@ def gen_c14(rng, tier):
     for n in [0, 1, 255, 256, 257, 2048, 4097, 10000, 20000] + sizes(tier, [50000], [100000, 300000, 1000000]):
         for kind in QWT_KINDS + ["wt"]:
             for path in ["new", "from", "collect"]:
-                elem = rng.choice(["u8", "u16", "u32", "u64"])
+                elem = rng.choice(["u8", "u16", "u32", "u64", "u64", "u128"])
                 mx = rng.choice([1, 3, 4, 63, 255] + ([1000, 65535] if WIDTH[elem] >= 16 else []))
+                if WIDTH[elem] >= 64 and rng.random() < 0.8:
+                    # wide symbols: the largest one at, just below and just above a power of two (every number of levels,
+                    # also where the level count computed in floating point would be off by one)
+                    kk = rng.choice([33, 40, 47, 48, 49, 50, 52, 53, 54, 55, 56, 60, 62, 63, 64] + ([65, 100, 127, 128] if WIDTH[elem] > 64 else []))
+                    mx = min(2 ** WIDTH[elem] - 1, rng.choice([2 ** kk - 1, 2 ** kk - 1, 2 ** kk - 2, 2 ** kk - 3, 2 ** kk, 2 ** kk + 1]))
                 c = tree_case(rng, "c14-%d" % k, kind, elem, tier, "q" if kind != "wt" else "w", n=n, maxsym=mx, sweep=False, paths=(path,))
                 c.lines = [c.lines[0], "Q len", "Q nlevels", "SPACE"]
                 c.tags.update(path=path, cost=n * 10)
@@ -2032,6 +2083,20 @@ def gen_c15(rng, tier):
             c.seq = seq
             c.fam = fam
             c.model = len(seq) <= 5000
+            out.append(c)
+            k += 1
+    # long sequences over very large long-tailed alphabets (one dominant symbol, hundreds of thousands of symbols occurring
+    # once): anything that rescales or floors the frequencies only shows here.  Given in the compact `a..b*c` notation.
+    for dom, tail in sizes(tier, [(150000, 112144)], [(150000, 112144), (300000, 224288), (1200000, 897152)]):
+        for fam in ["hq", "hw"]:
+            kind = rng.choice(HQ_KINDS[:2]) if fam == "hq" else "hwt"
+            c = Case("c15-big%d" % k, model=False, tags=dict(kind=kind, elem="u32", n=dom + tail, alphabet=tail + 1, mix="long-tail", path="new", trivial=False, cost=(dom + tail) * 4))
+            c.add("NEW %s u32 new %d 0*%d 1..%d*1" % (kind, dom + tail, dom, tail + 1))
+            c.add("Q codes")
+            c.add("Q nlevels")
+            c.add("SPACE")
+            c.seq = [0] * dom + list(range(1, tail + 1))
+            c.fam = fam
             out.append(c)
             k += 1
     return out
